@@ -56,7 +56,7 @@ def run(ctx):
     R2 = 'C13-R2'
     ctx.rule(R2, 'key types: every orderable DataValue variant the planner may push down (is_primary_key_range does not restrict '
                  'the type) has a non-diverging arm in DiskRowset::start_rowid')
-    b = prog.body(START_ROWID)
+    b = prog.inlined(START_ROWID)
     pk = prog.group(IS_PK_RANGE)
     if ctx.anchor(R2, START_ROWID, b is not None) and ctx.anchor(R2, IS_PK_RANGE, bool(pk)):
         ctx.functions_analysed.add(b.name)
@@ -106,7 +106,7 @@ def mask_rule(ctx, prog):
                  'on KeyRange::start and one on KeyRange::end, each with separate, non-diverging arms for Included / Excluded / '
                  'Unbounded, and both results flow into the visibility map handed to StorageChunk::construct (the seek to the '
                  'start row and the early stop are only optimisations on top of this mask)')
-    b = prog.body(NB)
+    b = prog.inlined(NB)
     if not ctx.anchor(R4, NB, b is not None):
         return
     ctx.functions_analysed.add(b.name)
@@ -286,7 +286,7 @@ def folded_filter_rule(ctx, prog):
                  'extracted a constant for it (`a > 5 and a < 3` is in one e-class with `false`), which has no range. So the Scan arm '
                  'must look at the filter node itself: `self.node(filter)` is matched against Constant and its value is inspected, '
                  'and the table scan is not built on the branch where the constant selects nothing')
-    b = prog.body(BUILD)
+    b = prog.inlined(BUILD)
     if not ctx.anchor(R6, BUILD, b is not None):
         return
     ctx.functions_analysed.add(b.name)
@@ -348,7 +348,7 @@ def conservative_seek_rule(ctx, prog):
     ctx.rule(R8, 'the seek to the start row is only an optimisation on top of the mask, so it must be conservative also when equal keys '
                  'straddle a block boundary (uniqueness of a PRIMARY KEY is not enforced): DiskRowset::start_rowid stops at the first '
                  'block whose first key is >= the start key (non-strict), i.e. it starts from the last block that begins BELOW the key')
-    b = prog.body(START_ROWID)
+    b = prog.inlined(START_ROWID)
     if not ctx.anchor(R8, START_ROWID, b is not None):
         return
     ctx.functions_analysed.add(b.name)
